@@ -139,7 +139,7 @@ Qed.
 
 (* the witness: old [a;b], new [a;a] *)
 Definition dup_pool : params :=
-  mkParams [mkSpec 0 UntilRunDone OnSignal RWC; mkSpec 1 UntilRunDone OnSignal RWC] false false false.
+  mkParams [mkSpec 0 UntilRunDone OnSignal RWC; mkSpec 1 UntilRunDone OnSignal RWC] false false false false.
 Definition dup_old : config := [(0, 0); (1, 0)]%N.
 Definition dup_new : config := [(0, 1); (0, 2)]%N.
 
